@@ -11,6 +11,7 @@ PROCS = 1  # a case takes ~1 ms: forking a pool costs more than it saves, and on
 THEOREMS = [
     "C12.switch_only_latest",
     "C12.switch_unsub_prev_at_arrival",
+    "C12.switch_completes_iff",
     "C12.switch_stale_error_ignored",
 ]
 RULE = ("outer timeline (cold or hot; completing before/after the last inner, erroring, never completing) of 0..4 inner sources with "
@@ -32,9 +33,9 @@ OPS = ["switch_latest", "switch_map", "switch_map_indexed", "flat_map_latest"]
 
 
 def cases(rng, tier):
-    n = fw.tier_scale(tier, 1600, 18000)
+    n = fw.tier_scale(tier, 4000, 36000)
     for i in range(n):
-        yield cc.gen_ho_case(rng, OPS[i % len(OPS)])
+        yield cc.gen_ho_case(rng, OPS[i % len(OPS)], p_rude=0.5)
 
 
 def impl(case):
